@@ -326,10 +326,16 @@ ExecS(s, S) ==
       [] s.t \in {"relate", "unrelate"} ->
             LET x == InstOf(S, s.a)
                 y == InstOf(S, s.b)
-            IN IF x = <<>> \/ y = <<>> \/ s.using # "" THEN Fail(S)
-               ELSE LET R == IF s.t = "relate" THEN MRelate(S.m, x[1].c, x[1].i, y[1].c, y[1].i, s.rel, StripTicks(s.ph))
-                                               ELSE MUnrelate(S.m, x[1].c, x[1].i, y[1].c, y[1].i, s.rel, StripTicks(s.ph))
-                    IN IF R = <<>> THEN Fail(S) ELSE [S EXCEPT !.m = R[1]]
+                u == IF s.using = "" THEN <<>> ELSE InstOf(S, s.using)
+                ph == StripTicks(s.ph)
+                Op(M, p, q) == IF s.t = "relate" THEN MRelate(M, p.c, p.i, q.c, q.i, s.rel, ph)
+                                                 ELSE MUnrelate(M, p.c, p.i, q.c, q.i, s.rel, ph)
+            IN IF x = <<>> \/ y = <<>> \/ (s.using # "" /\ u = <<>>) THEN Fail(S)
+               ELSE IF s.using = "" THEN (LET R == Op(S.m, x[1], y[1]) IN IF R = <<>> THEN Fail(S) ELSE [S EXCEPT !.m = R[1]])
+               \* with a link instance: first the one side with the link instance, then the link instance with the other side
+               ELSE LET R1 == Op(S.m, x[1], u[1])
+                    IN IF R1 = <<>> THEN Fail(S)
+                       ELSE LET R2 == Op(R1[1], u[1], y[1]) IN IF R2 = <<>> THEN Fail(S) ELSE [S EXCEPT !.m = R2[1]]
       [] s.t = "select_from" ->
             LET F == Filter(S, s.k, S.m.pool[s.k], s.haswhere, s.w)
             IN IF ~F.ok THEN Fail(S)
